@@ -399,6 +399,10 @@ func (c *contentValidator) ValidateRequestAccept(ch *aclrecordproto.AclAccountRe
 	if !acceptIdentity.Equals(record.RequestIdentity) {
 		return ErrIncorrectIdentity
 	}
+	if record.Type != RequestTypeJoin {
+		// only join requests can be accepted, remove requests are resolved by AccountRemove or canceled
+		return ErrNoSuchRequest
+	}
 	if ch.Permissions == aclrecordproto.AclUserPermissions_Owner {
 		return ErrInsufficientPermissions
 	}
